@@ -16,7 +16,7 @@ PROPS = {
     ),
     'C08': dict(title='Receive-side header validation and stream framing', l0=True, live=True, lean=['CoreBGP.Props.C08'],
         trivial=[r'^read/m0\.other$'], rule='L0 differential on the reader goroutine over in-memory connections with varying segmentations: header length values (quick: protocol-relevant sample + 400 random; thorough: all 65536) x types, all 256 types x boundary lengths, every marker position, every truncation; NOTIFICATION encodings; non-trivial = reader got past the first short read'),
-    'C14': dict(title='The OPEN corebgp sends reflects configuration and plugin capabilities', l0=True, lean=['CoreBGP.Props.C14'],
+    'C14': dict(title='The OPEN corebgp sends reflects configuration and plugin capabilities', l0=True, live=True, lean=['CoreBGP.Props.C14'],
         rule='L0 differential on newOpenMessage+encode: AS grid incl. 65535/65536/2^32-1, hold times, capability lists 0..40 with codes 0..255 incl. 65, value lengths 0..300, sweeps across every 255-byte length-octet boundary'),
     'C02': dict(title='OPEN handshake: exactly the valid OPENs are accepted', l0=True, live=True, lean=['CoreBGP.Props.C02', 'CoreBGP.Props.C02b', 'CoreBGP.Props.C15'],
         trivial=[r'^open\.dec/err\.1\.2$', r'^open\.val/undecodable$'],
@@ -29,7 +29,7 @@ PROPS = {
         rule='L0 differential per typed decoder: all 256 flag octets x every value length 0..13, boundary lengths up to 4096, all ORIGIN octets, AS_PATH segment grids, grammar-generated and mutated values'),
     'C19': dict(title='Prefix, NLRI, add-path and MP_REACH/MP_UNREACH decoders are exact', l0=True, lean=['CoreBGP.Props.C19'],
         rule='L0 differential: every prefix length octet 0..255 x exact/short/long for IPv4/IPv6 x plain/add-path, every truncation, generated and mutated lists; MP_REACH with every next-hop length octet x straddling attribute lengths, every flags octet'),
-    'C20': dict(title='Peer registry behaves as a consistent map and rejects unusable configs', l0=True, lean=['CoreBGP.Props.C20'],
+    'C20': dict(title='Peer registry behaves as a consistent map and rejects unusable configs', l0=True, live=True, lean=['CoreBGP.Props.C20'],
         rule='full configuration grid (router id kind x remote/local address kind x AS {0,1,65535,65536,2^32-1} x hold {0,1,2,3,65535} x port {-1,0,1,179,65535,65536}) through NewServer+AddPeer; seeded sequential registry operation sequences (<=13 ops over 6 keys, with and without Serve/Close) compared step by step with the model and the abstract map'),
     'C12': dict(title='Protocol errors damp the peer; Cease and transport faults do not', l0=True, live=True, lean=['CoreBGP.Props.C12', 'CoreBGP.Props.C12L2'],
         rule='exhaustive error histories up to length 4 (thorough 5) over the gap alphabet {0,1,10,100,299,300,301,1000 s} and random long ones through the real updateStartupDelay; every NOTIFICATION code 0..255 x sent/received x wrapped/bare through the real handleError'),
